@@ -11,7 +11,7 @@ ANCHOR_PREFIXES = ["transform::", "element::", "position::", "path::", "transfor
 BOUNDS = ("documents in svgdx mode (root <svg> without namespace, or a fragment) built from the SVG 1.1 vocabulary {rect (+rx ry), circle, ellipse, line, polyline, polygon, path with absolute and relative "
           "M L H V C S Q T A Z, text/tspan with x y dx dy, g with transform (translate scale rotate skewX matrix), use, image, nested svg with viewBox, foreignObject, linearGradient/radialGradient + stop, "
           "marker, clipPath, mask, pattern, filter primitives, symbol, a, title/desc, defs}; one symbolic variable per numeric slot (k/2 in [-256,256], sizes k/2 in [0,128]); numbers written as plain, "
-          "well-separated decimals; values with units / percentages as concrete strings; nesting <= 3, <= 4 children; plus: partially specified shapes (SVG default-0 coordinates omitted), explicit end tags, every numeric slot independently number / percentage / unit, the SVG-defined geometry attributes of empty non-shape elements (gradients, pattern, mask, filter, filter primitives and light sources, cursor, marker, view), dx/dy on text / tspan / tref / altGlyph / glyphRef / feOffset / feDropShadow, the whole transform vocabulary in its SVG capitalisation; use of centre-defined shapes, partial lines, text forms (transform, coordinate lists, units), points separators, values finer than 1/1000, character data around comments; table-driven documents (quick 120, thorough 2000): element x subset of its SVG attributes x value form {symbolic number, decimal, unit, percentage}, presentation attributes, g / a / defs nesting")
+          "well-separated decimals; values with units / percentages as concrete strings; nesting <= 3, <= 4 children; plus: partially specified shapes (SVG default-0 coordinates omitted), explicit end tags, every numeric slot independently number / percentage / unit, the SVG-defined geometry attributes of empty non-shape elements (gradients, pattern, mask, filter, filter primitives and light sources, cursor, marker, view), dx/dy on text / tspan / tref / altGlyph / glyphRef / feOffset / feDropShadow, the whole transform vocabulary in its SVG capitalisation; use of centre-defined shapes, partial lines, text forms (transform, coordinate lists, units), points separators, values finer than 1/1000, character data around comments; table-driven documents (quick 120, thorough 2000): element x subset of its SVG attributes x value form {symbolic number, decimal, unit, percentage}, presentation attributes, g / a / defs nesting; clip paths without a computable box on shapes, groups and <use>; ids with non-ASCII letters; <use xlink:href> under a root that declares the prefix; <use> into another document and white-space-only shape content (open findings)")
 ASSUMPTIONS = ["the expected output is the input document itself with every placeholder read as its own variable; the root element may gain version/xmlns/width/height/viewBox, a <text> element with character-only "
                "content may gain the d-text class (documented reinterpretation)", "lexical variants of the SVG number grammar (exponents, sign-separated numbers, run-together arc flags, xlink:href) are outside: "
                "symbolic numbers are always printed as plain decimals"]
